@@ -90,7 +90,10 @@ Qed.
 Lemma valid_type_bridge : forall j, gen_valid_type j = valid_type j.
 Proof.
   intro j. unfold gen_valid_type, valid_type, gen_json_or_hdf5_get, gen_json_or_hdf5_key.
-  rewrite TableTypes_bridge. change (K "") with (@nil Z). crunch.
+  rewrite TableTypes_bridge. change (K "") with (@nil Z).
+  destruct (py_get j (K "type")) as [v|c]; cbn [bind]; [|reflexivity].
+  destruct (is_null v), (py_eq v (JStr [])); cbn [orb]; try reflexivity.
+  crunch.
 Qed.
 
 Lemma valid_generated_by_bridge : forall j, gen_valid_generated_by j = valid_generated_by j.
